@@ -89,6 +89,7 @@ def c05_job(chk, rng, i):
     p["features"] = {"ccl", "str", "alt", "closure", "grp"}
     big = (i % 9 == 8)
     p["scs"] = rng.rint(41, 60) if big else rng.rint(1, 6)
+    p["bol"] = 25
     g, case = base_case(chk, rng, p)
     nsc = len(case["scs"])
     # scopes: group some consecutive rules under <list>{ }, nested up to 3 deep
@@ -172,6 +173,18 @@ def c06_job(chk, rng, i):
     p["bar"] = 12
     p["scs"] = rng.choice([0, 0, 1])
     g, case = base_case(chk, rng, p)
+    # several trailing-context rules with the same head and different trails (their head
+    # markers meet in one automaton state)
+    if i % 2 == 0:
+        for k in range(rng.rint(1, 2)):
+            src = rng.choice(case["rules"])
+            head = src["pat"] if rng.chance(60) else ("plus", ("chr", rng.choice(b"ab")))
+            for j in range(2):
+                case["rules"].insert(rng.below(len(case["rules"]) + 1), {
+                    "scs": src["scs"], "bol": src["bol"], "pat": head,
+                    "trail": ("cat", [("plus", ("chr", rng.choice(b"cd01"))),
+                                      ("chr", rng.choice(b"abcd"))]) if rng.chance(70)
+                    else g.series(1), "act": []})
     f = {"ret": 25, "setbol": 12 if i % 3 == 0 else 0}
     scripts.decorate(case, rng, f)
     scripts.driver_walk_scs(case, rng)
@@ -394,12 +407,28 @@ def c10_job(chk, rng, i):
                 srcs.append(s)
         inputs.append({"sources": srcs, "sched": rng.choice([[0], [1], [2, 3], [5]])})
     case["budget"] = {"events": 800}
+    include_mode = (i % 4 == 3 and nsrc >= 2)
+    if include_mode:
+        # "include" style: an action pushes a buffer on another source, yywrap pops back
+        # to the including buffer (which still holds unread, already buffered text)
+        case["eofs"] = []
+        case["driver"] = {"init": [("open_buf", 0)]}
+        k0 = 700
+        cands = [r for r in case["rules"] if r["act"] != "|"]
+        for n_, r in enumerate(rng.sample(cands, min(len(cands), 3))):
+            s_ = 1 + n_
+            src = 1 + (n_ % (nsrc - 1))
+            r["act"] = [("if", k0 + n_, 100, 40, [("x", ("gcreate", s_, src, 0)),
+                                                   ("x", ("gpush", s_))])] + list(r["act"])
+        case["wrap"] = [("pop",)] * 40
     fl = rotate(i, FLAV3)
     tb = rotate(i // 3, ["", "-Cem", "-C", "-Cfe", "-CFe", "-Ca"])
     cfg = {"flavour": fl, "flexargs": lib.tables_args(tb, 8),
            "opts": {"interactive": rotate(i // 2, [None, True, False])
                     if not ("f" in tb or "F" in tb) else False}}
     feats = ["nsrc:%d" % nsrc, "eof_style:%d" % style]
+    if include_mode:
+        feats.append("include_mode")
     return {"case": case, "configs": [cfg], "inputs": inputs, "skip_if": dangerous,
             "expect_build": std_refusals(tb), "features": feats}
 
@@ -532,9 +561,18 @@ def c03_job(chk, rng, i):
         configs.append({"flavour": "nr", "flexargs": lib.tables_args(tb, 8),
                         "opts": {"input": "stdio", "always_interactive": True}})
     elif kind == 3:
-        configs.append({"flavour": "r", "flexargs": lib.tables_args(tb, 8),
-                        "opts": {"input": "stdio", "use_read": True},
-                        "input_flags": 2, "input_filter": lambda inp: inp["sched"] == [0]})
+        # read(2) path; neither -I nor -B given: interactive by default unless -Cf/-CF, so
+        # the look-ahead bound applies to it as well
+        c3 = {"flavour": "r", "flexargs": lib.tables_args(tb, 8),
+              "opts": {"input": "stdio", "use_read": True}, "input_flags": 2}
+        plain = not reject_case and not any(
+            r["act"] != "|" and any(o[0] == "if" and o[4][0][0] == "more" for o in r["act"])
+            for r in case["rules"])
+        if not full and plain:
+            c3["input_flags"] = 3
+            c3["deliv"] = True
+            c3["input_filter"] = lambda inp: inp["sched"] == [1]
+        configs.append(c3)
     # interactive scanners must not over-read (1-byte reads, single plain source)
     if not full and not reject_case and not any(r["act"] != "|" and r["act"] and
                                                 any(o[0] == "if" and o[4][0][0] == "more"
